@@ -3,10 +3,10 @@ package govc
 // Contract language: evaluation of spec expressions to SMT terms over a symbolic state.
 
 import (
-	"os"
 	"fmt"
 	"go/types"
 	"math/big"
+	"os"
 	"strings"
 
 	"golang.org/x/tools/go/ssa"
@@ -26,6 +26,7 @@ type SpecEnv struct {
 	Pkg   *ssa.Package
 	Lets  map[string]Expr
 	Frame *Frame
+	Prev  *SpecEnv // loop step clauses: the environment at the head of the iteration
 	depth int
 }
 
@@ -111,6 +112,11 @@ func (env *SpecEnv) eval(e Expr) SV {
 		sub := *env
 		sub.Cur = env.Old
 		return sub.eval(e.X)
+	case EPrev:
+		if env.Prev == nil {
+			specFail("prev() is only meaningful in a loop step clause")
+		}
+		return env.Prev.eval(e.X)
 	case EUn:
 		switch e.Op {
 		case "!":
@@ -438,15 +444,15 @@ func (env *SpecEnv) evalQuant(e EQuant) SV {
 // ---- sums ----
 
 type sumInfo struct {
-	fn    *FunDecl
-	lim   *FunDecl
+	fn     *FunDecl
+	lim    *FunDecl
 	params []*Term
 	points []sumPoint
 	done   map[string]bool
-	lo    *Term
-	bv    *Term
-	body  *Term // f(bv)
-	pos   string
+	lo     *Term
+	bv     *Term
+	body   *Term // f(bv)
+	pos    string
 }
 
 // freeBoundVars lists the bound-variable leaves occurring free in t (in order
@@ -911,12 +917,19 @@ func (env *SpecEnv) pkgByName(name string) *types.Package {
 			return p.Pkg
 		}
 	}
+	// a library package: the import path itself, else the shortest path with that name (deterministic)
+	var best *types.Package
 	for _, p := range x.W.Prog.AllPackages() {
-		if p.Pkg.Name() == name || p.Pkg.Path() == name {
+		if p.Pkg.Path() == name {
 			return p.Pkg
 		}
+		if p.Pkg.Name() == name {
+			if best == nil || len(p.Pkg.Path()) < len(best.Path()) || len(p.Pkg.Path()) == len(best.Path()) && p.Pkg.Path() < best.Path() {
+				best = p.Pkg
+			}
+		}
 	}
-	return nil
+	return best
 }
 
 func (env *SpecEnv) objToSV(obj types.Object) (SV, bool) {
@@ -1004,6 +1017,9 @@ func (env *SpecEnv) resolveType(s string) types.Type {
 				}
 			}
 		}
+	}
+	if s == "interface{}" {
+		return types.NewInterfaceType(nil, nil)
 	}
 	if obj := types.Universe.Lookup(s); obj != nil {
 		if tn, ok := obj.(*types.TypeName); ok {
@@ -1094,6 +1110,12 @@ func (env *SpecEnv) evalCall(e ECall) SV {
 		}
 		T := env.resolveType(tl.Type)
 		return SV{VBool{c.Eq(iv.Tag, c.Int(int64(x.W.TypeTag(T))))}, tBool}
+	case "iserrval":
+		// the value is an error built by fmt.Errorf / errors.New (native model: *errorString)
+		if iv, ok := arg(0).V.(VIface); ok {
+			return SV{VBool{c.Eq(iv.Tag, c.Int(int64(x.W.TypeTag(types.NewPointer(errorStringType())))))}, tBool}
+		}
+		specFail("iserrval() on non-interface")
 	case "typeof":
 		if iv, ok := arg(0).V.(VIface); ok {
 			return SV{VInt{iv.Tag}, nil}
